@@ -165,7 +165,8 @@ pub fn math_sign(
     } else if n < 0.0 {
         -1.0
     } else {
-        0.0
+        // +0 and -0 are returned unchanged
+        n
     };
     Ok(Guarded::unguarded(JsValue::Number(result)))
 }
